@@ -634,6 +634,7 @@ def evaluate(info, image, base, stats):
                 got, want = (pc + imm) & M64, s.target
             else:   # ADRP: Page(pc) + imm * 4096 must be the page of the target
                 got, want = ((pc & ~0xFFF) + (imm << 12)) & M64, s.target & ~0xFFF
+            mean.append(("A64 %d %d" % (pc, w), got, s.line))
             if got != want:
                 probs.append(("C04/adr-target/a64", "%s at %d:%d: word %#x at address %#x yields %#x, not %#x" % (s.line, s.sec, s.off, w, pc, got, want)))
             else:
@@ -643,6 +644,7 @@ def evaluate(info, image, base, stats):
             w = int.from_bytes(raw, "little")
             kind = "imm19" if s.kind == "bcondi" else "imm26"
             got = (base + pos + c03.decode_field(kind, w)) & M64
+            mean.append(("A64 %d %d" % (base + pos, w), got, s.line))
             if got != s.target:
                 probs.append(("C04/branch-target/a64", "%s at %d:%d: word %#x at address %#x branches to %#x, not %#x" % (s.line, s.sec, s.off, w, base + pos, got, s.target)))
             else:
